@@ -3,7 +3,7 @@ From Coq Require Import ZArith QArith Qreals List Reals Bool.
 From Coquelicot Require Import Complex Hierarchy Derive.
 From PyqspV Require Import Base.Ops Base.IntervalZ Model.LPolyM Model.LAlgM Model.QInst Model.ResponseM Model.SymQspM Model.Checkers
   Theory.RingK Theory.LPolyT Theory.LAlgT Theory.RelT Theory.CplxT Theory.RespT Theory.QC Theory.CertT Theory.C01T Theory.C06T
-  Theory.CornerT Theory.SymQspT Theory.SymCertT Theory.DualT Theory.JacT.
+  Theory.CornerT Theory.SymQspT Theory.SymCertT Theory.DualT Theory.JacT Theory.AccHiT Theory.ChebDblT Theory.FftT.
 Import ListNotations.
 
 Section Layout.
@@ -74,3 +74,18 @@ Theorem C12_jacobian_entry_is_exact_coefficient (l : list (Q * nat)) gF sF odd j
     entryF sF odd j d = entryR sR odd j.
 Proof. exact (jac_entry_pointwise l gF sF odd j d). Qed.
 Print Assumptions C12_jacobian_entry_is_exact_coefficient.
+
+(* the sampling pipeline of gen_jacobian (d+1 samples, two mirror steps, real DFT over 4d rows, doubling, /4d, every second row):
+   applied to a column that is a Chebyshev sum  sum_{i<d} c_i T_{2i+parity}(a)  sampled at a_n = cos(n pi/(2d)), it returns exactly the c_j *)
+Theorem C12_sampling_pipeline_recovers_coefficients d odd (s c : nat -> R) :
+  (0 < d)%nat ->
+  (forall n, (n <= d)%nat -> s n = sumf (fun i => c i * Tn (par odd + 2 * i) (cos (PI * INR n / INR (2 * d)))) d)%R ->
+  forall j, (j < d)%nat -> f_out d odd s j = c j.
+Proof. exact (pipeline_recovers_chebyshev_coefficients d odd s c). Qed.
+Print Assumptions C12_sampling_pipeline_recovers_coefficients.
+
+(* no aliasing below the limit: the cosines cos(j t), cos(k t) with j + k < N are orthogonal on the N equispaced angles of the circle *)
+Theorem C12_circle_orthogonality N j k : (j + k < N)%nat ->
+  cgram N j k = if Nat.eqb j k then (if Nat.eqb j 0 then INR N else (INR N / 2)%R) else 0%R.
+Proof. exact (circle_orthogonality N j k). Qed.
+Print Assumptions C12_circle_orthogonality.
